@@ -17,6 +17,11 @@ Definition inb (n k : Z) : bool := (0 <=? k) && (k <? n).
 (* s[k] for an input series (finite doubles = integers on the exact stream) *)
 Definition sget (s : list Z) (k : Z) : cost := if k <? 0 then Inf else Fin (nth (Z.to_nat k) s 0).
 
+(* Python a[lo:hi] for 0 <= lo < hi <= len(a) (the condition is the conjunct inb_slice adds to ok; an empty slice
+   makes array_min raise, a negative bound wraps around) *)
+Definition aslice (a : list cost) (lo hi : Z) : list cost := firstn (Z.to_nat (hi - lo)) (skipn (Z.to_nat lo) a).
+Definition inb_slice (n lo hi : Z) : bool := (0 <=? lo) && (lo <? hi) && (hi <=? n).
+
 Definition csedist (a b : cost) : cost :=                 (* SEDIST(a, b) = (a - b) * (a - b) *)
   match a, b with Fin x, Fin y => Fin ((x - y) * (x - y)) | _, _ => Inf end.
 Definition cabsdiff (a b : cost) : cost :=                (* fabs(a - b) *)
